@@ -203,8 +203,7 @@ def h_plumb(prog: int, base: int, i1: int, i2: int, i3: int, i4: int, i5: int, i
     while k < len(evs):
         ev = evs[k]
         first, last, kind = events[k]
-        if ev.name in ASSERTED and not (ev.name == "on_class_field" and ev.payload[0].name is None):
-            # (the promoted anonymous member is judged separately: anon_member_location / known finding D13)
+        if ev.name in ASSERTED:
             loc = ev.location
             if loc.filename != "dir/f.h":
                 return False
@@ -409,7 +408,7 @@ def run(tier):
         if not ok:
             raise HarnessError(f"#line name counterexample did not reproduce: {msg}\n{out}")
         ck.violation(f"#line: reported file name differs from the quoted name ({msg[:120]})", p, key=dict(kind="line-name"))
-    # D13 (known finding): the promoted anonymous struct/union member is delivered with a stale location
+    # D13 (fixed in /repo): the promoted anonymous struct/union member must be located inside the member
     r13 = anon_member_location()
     ck.traces += 1
     if r13:
